@@ -16,7 +16,7 @@ separate theorem can show it lies in [0, 64) (C leaves other counts undefined).
 """
 import re
 
-TOK = re.compile(r"\s*(?:(\d+[uUlL]*|0[xX][0-9a-fA-F]+[uUlL]*)|([A-Za-z_]\w*(?:\s*->\s*[A-Za-z_]\w*)*)|"
+TOK = re.compile(r"\s*(?:(0[xX][0-9a-fA-F]+[uUlL]*|\d+[uUlL]*)|([A-Za-z_]\w*(?:\s*->\s*[A-Za-z_]\w*)*)|"
                  r"(<<|>>|<=|>=|==|!=|&&|\|\||[-+*/%&|^~!<>()?:]))")
 
 CAST_TYPES = {
